@@ -288,12 +288,41 @@ def run_slots(shard, spec):
             shard.note_inconclusive('slot sweep stopped on its time budget before all 1792 slots were visited')
             break
 
+def run_ldair_window(shard):
+    """LD A,I / LD A,R: P/V is IFF2, except that it reads 0 when a maskable interrupt is accepted at the end of the instruction
+    (documented NMOS Z80 behaviour, which the simulators model with the frame clock: interrupts are accepted in the first
+    32 T-states of a 69888 T-state frame on the 48K machine). Plain simulators, every clock phase around both edges of the
+    acceptance window, several frames."""
+    zero = [0] * 65536
+    n = 0
+    for kind in ('py', 'c'):
+        m = sims.Machine(kind, zero, [0] * 30, 0, False, 0)
+        for op in (0x57, 0x5F):
+            m.sim.memory[0x8000], m.sim.memory[0x8001] = 0xED, op
+            for fr in (1, 2, 5, 61500):
+                for d in list(range(-12, 13)) + list(range(20, 45)):
+                    for iff in (0, 1):
+                        t_end = 69888 * fr + d
+                        regs = [0x33] * 30
+                        regs[12], regs[13], regs[24], regs[25], regs[26], regs[27], regs[28] = 0x9000, 0, 0x8000, t_end - 9, iff, 1, 0
+                        sims.set_regs(m.sim, regs)
+                        m.step()
+                        f = m.regs[1]
+                        expect = 1 if iff and not (t_end % 69888) < 32 else 0
+                        n += 1
+                        if (f >> 2) & 1 != expect or m.regs[25] != t_end:
+                            shard.violation('%s: LD A,%s ending at frame position %d with IFF=%d leaves P/V=%d (T=%d), expected P/V=%d (T=%d)' % (
+                                kind, 'IR'[op == 0x5F], t_end % 69888, iff, (f >> 2) & 1, m.regs[25], expect, t_end), {'part': 'ldair', 'kind': kind, 'op': op, 't_end': t_end, 'iff': iff})
+                        shard.case(('ldair', kind, op, fr, d, iff), True)
+    shard.inc('monitor:ldair_window_steps', n)
+
 def run_fast(shard, spec):
     """The Python simulator built with fast_ldir/fast_djnz (trace.py without -v/-m/-M, #SIM) runs LDIR/LDDR/DJNZ loops in one
     call: its end state must be that of the same instruction iterated on the ordinary Python simulator and on the C one -
     which the other parts of this check hold against the reference model. The workload is the one C06 uses for the same
     comparison (boundary-aimed block copies and delay loops)."""
     from vk.props import c06
+    run_ldair_window(shard)
     c06.run_fast(shard, spec)
 
 def run(shard, spec):
@@ -306,6 +335,8 @@ def finalize(agg, tier):
         probs.append('no step was compared with the reference')
     if not c.get('monitor:fast_path_comparisons') or not c.get('observed:fast_path_multi_iteration'):
         probs.append('the fast-path comparison observed nothing')
+    if not c.get('monitor:ldair_window_steps'):
+        probs.append('the LD A,I/R interrupt-window sweep observed nothing')
     return probs
 
 def replay(shard, rp):
